@@ -100,6 +100,33 @@ def sweep(tier, seed=0):
                         fails.append(rtc.Failure("read_text", {"content": text, "linedelimiter": delim}, "ensures", "C50-same-lines-for-every-blocksize", f"{results!r}"))
                 if len([f for f in fails if not f.args.get("self_overlapping_delimiter")]) >= 6 or time.time() - t0 > budget:
                     break
+            # ---- nominal blocks without a delimiter: they must tile the file (from byte 1 when not_zero) for every size and
+            # blocksize -- float accumulation in the offset loop makes rare (size, blocksize) pairs special
+            tile_sizes = list(range(1, 131 if tier == "quick" else 401)) + [250, 116, 126]
+            tile_fails = []
+            for size in tile_sizes:
+                if tile_fails or time.time() - t0 > budget * 1.5:
+                    break
+                p = os.path.join(d, "tile.bin")
+                data = bytes((i * 7 + 3) % 251 for i in range(size))
+                with open(p, "wb") as f:
+                    f.write(data)
+                for bs in range(2 if size > 40 else 1, 17):
+                    for nz in (False, True):
+                        cases += 1
+                        try:
+                            _, blocks = read_bytes(p, delimiter=None, blocksize=bs, not_zero=nz, sample=False)
+                            got = b"".join(dask.compute(*blocks[0])) if blocks and blocks[0] else b""
+                            want = data[1:] if nz else data
+                            msg = None if got == want else f"the blocks give {len(got)} bytes, the file {'minus its first byte ' if nz else ''}has {len(want)} (first difference at byte {next((i for i, (a, b) in enumerate(zip(got, want)) if a != b), min(len(got), len(want)))})"
+                        except Exception as e:  # noqa
+                            msg = f"{type(e).__name__}: {e}"
+                        if msg:
+                            tile_fails.append(rtc.Failure("read_bytes", {"size": size, "blocksize": bs, "not_zero": nz, "delimiter": None}, "ensures", "C50-blocks-tile-the-file", msg))
+                            break
+                    if tile_fails:
+                        break
+            fails.extend(tile_fails)
             # several files, files_per_partition, include_path
             cases += 1
             try:
@@ -119,6 +146,6 @@ def sweep(tier, seed=0):
     finally:
         shutil.rmtree(d, ignore_errors=True)
     return {"function": "dask/bytes/core.py:read_bytes, dask/bag/text.py:read_text (real code, real files)", "bounded": True,
-            "bound": {"contents": "20 hand-picked (empty, no/trailing/runs of delimiters, self-overlapping, unicode, form feed) + random", "delimiters": ["\\n", "|", "||", "aa"], "blocksizes": "1,2,3,5,7,len/2,len+1, None"},
+            "bound": {"contents": "20 hand-picked (empty, no/trailing/runs of delimiters, self-overlapping, unicode, form feed) + random", "delimiters": ["\\n", "|", "||", "aa"], "blocksizes": "1,2,3,5,7,len/2,len+1, None", "tiling": "every file size 1..130 (quick) / 1..400 x blocksize 1..16 x not_zero, no delimiter"},
             "cases": cases, "distinct_nontrivial": cases, "failures_found": len(fails), "wall_s": round(time.time() - t0, 2),
             "samples": [{"native_case": {"content": "a|b|", "linedelimiter": "|", "blocksize": 2}}], "failures": fails[:200]}
